@@ -56,6 +56,8 @@ pub struct AlgoGen {
     pub boundary_per_mille: u32,
     /// one case in this many is a dense graph with thousands of edges (0 = never)
     pub huge_one_in: u32,
+    /// one case in this many is a graph of more than 4 096 nodes with a hub adjacent to more than 4 096 (0 = never)
+    pub hub_one_in: u32,
 }
 
 impl AlgoGen {
@@ -80,6 +82,17 @@ impl AlgoGen {
             case.params.put("source", J::s("dense graph with thousands of edges"));
             case.params.put("regime", J::s(&format!("{:?}", regime)));
             case.envs = gen::keyings(seed, self.keyings).into_iter().enumerate().map(|(i, k)| Env { keying: k, pool: if hr.chance(1, 8) { 1 } else { 2 + hr.below(15) }, sched: crate::core::rng::mix(seed, 0x5c + i as u64) }).collect();
+            return case;
+        }
+        if self.hub_one_in > 0 && hr.chance(1, self.hub_one_in) {
+            let regime = *hr.pick(&self.regimes);
+            let mut wr = Rng::new(seed, "workload.hub");
+            let (specs, ops) = gen::gen_hub_graph(&mut wr, directed, multi, self_loops, regime);
+            let mut case = Case::new(prop, seed, specs);
+            case.ops = ops;
+            case.params.put("source", J::s("more than 4096 nodes, hub adjacent to more than 4096"));
+            case.params.put("regime", J::s(&format!("{:?}", regime)));
+            case.envs = gen::keyings(seed, self.keyings.min(3)).into_iter().enumerate().map(|(i, k)| Env { keying: k, pool: if hr.chance(1, 8) { 1 } else { 2 + hr.below(15) }, sched: crate::core::rng::mix(seed, 0x5c + i as u64) }).collect();
             return case;
         }
         if rng.chance(self.boundary_per_mille, 1000) {
@@ -178,8 +191,40 @@ pub fn poison_prelude(env: &Env, cx: &mut Ctx) {
         Ok(Ok(_)) => {}
         _ => failed += 1,
     }
+    // valid searches that stop early at a target (unweighted, so the negative edge does not matter): whatever
+    // they leave behind - a fringe that was not drained, a scratch table - must not reach the judged calls
+    let mut early = 0;
+    for (t, first_only, with_paths) in [("a", false, false), ("b", true, true), ("c", false, true), ("a", true, false)] {
+        if let Ok(Ok(_)) = crate::core::rt::call("prelude:single_source(target)", b, || dijkstra::single_source(&g, false, "s".to_string(), Some(t.to_string()), None, first_only, with_paths)) {
+            early += 1;
+        }
+    }
+    if let Ok(Ok(_)) = crate::core::rt::call("prelude:all_pairs(target)", b, || crate::pool::scoped(env.pool, || dijkstra::all_pairs(&g, false, Some("a".to_string()), None, false, false))) {
+        early += 1;
+    }
+    cx.add("fault.searches_stopped_early_before_the_judged_ones", early);
     cx.count("probe.poison_prelude");
     cx.add("fault.failed_searches_before_the_judged_ones", failed);
+}
+
+/// The same graph with its nodes declared in another (seeded) order: same names, same edges, other positions.
+/// Used as "what ran on this thread before": calls on it must not change what later calls on the case's own
+/// graph return.
+pub fn sibling(case: &Case) -> Option<G> {
+    let at = case.ops.iter().position(|o| matches!(o, Op::AddNodes(_)))?;
+    let mut ops = case.ops.clone();
+    if let Op::AddNodes(ns) = &mut ops[at] {
+        if ns.len() < 2 {
+            return None;
+        }
+        let mut r = Rng::new(case.seed, "sibling");
+        let before = ns.clone();
+        r.shuffle(ns);
+        if *ns == before {
+            ns.reverse();
+        }
+    }
+    real::build(case.specs, &ops).ok()
 }
 
 pub type SpMap = BTreeMap<String, (f64, Vec<Vec<String>>)>;
